@@ -51,6 +51,14 @@ CHECKS = {
             "Trusted base: harness/walker.py path semantics; the analysis' set is read from the in-memory state-flow graph (SYMBOL_IS_USED edges); "
             "Python frontend only.",
             "DESIGN.md 3/C06"),
+    "C02": ("differential testing: Hypothesis-generated programs of a typed core language rendered in seven languages; reference K interpreter vs one common GIR interpreter over each frontend's GIR",
+            "Each generated core-language program (ints, bools, strings, locals, arithmetic, comparisons, logical operators, if/else, while, counted for, "
+            "break/continue, functions, calls, return, records, arrays) is rendered in python, javascript, typescript, java, go, c and php; lian lowers "
+            "each rendering and the GIR is executed by the same reference interpreter; the out() trace must equal the K interpreter's and no executed "
+            "instruction or operand column may be outside the shared vocabulary.",
+            "Trusted base: harness/girsem.py (common GIR semantics), harness/gen_core.py renderers (syntactic; Go/PHP/TypeScript not cross-checked "
+            "against a native toolchain on this image) and the K interpreter.",
+            "DESIGN.md 3/C02"),
 }
 
 NOT_YET = {}
